@@ -31,6 +31,9 @@ def cases(tier, seed, prep=None):
         out.append({"kind": "random", "seed": base + i})
     for i in range(16 if q else 400):
         out.append({"kind": "random", "seed": base + 40000 + i, "nkills": [8, 12, 16, 24][i % 4]})
+    # a large backlog written while offline
+    for i in range(8 if q else 200):
+        out.append({"kind": "random", "seed": base + 90000 + i, "nkills": 2, "offline_burst": [1100, 1500, 2500, 700][i % 4]})
     # receiving applications that pause and later resume their subchannel (also while no connection exists)
     for i in range(80 if q else 2400):
         out.append({"kind": "random", "seed": base + 80000 + i, "pauses": [2, 4, 8][i % 3], "nkills": [None, None, 8][i % 3]})
@@ -98,6 +101,17 @@ def run_case(spec):
             kills["skipped"] += 1
             return
         kills["done"] += 1
+        if spec.get("offline_burst") and not kills.get("burst_done"):
+            # the application keeps producing while the connection is gone (a user typing offline, a sync tool walking
+            # a directory): well over a thousand small records wait for the next connection
+            kills["burst_done"] = True
+            world.reactor.cut(link)
+            for side_ in "AB":
+                live_ = [p_ for p_ in drv.protos(side_) if drv.is_open(p_)]
+                for k_ in range(spec["offline_burst"] if live_ else 0):
+                    drv.write(live_[k_ % len(live_)], b"%s:burst:%d" % (live_[k_ % len(live_)].name.encode(), k_))
+                    kills["burst_writes"] = kills.get("burst_writes", 0) + 1
+            return
         if how == "cut":
             world.reactor.cut(link)
         elif how in ("leader-first", "follower-first"):
@@ -201,7 +215,7 @@ def run_case(spec):
     viol = []
     counters = {"kills": kills["done"], "kills_skipped": kills["skipped"], "opens": len(drv.opens),
                 "writes_delivered": 0, "complete": int(complete), "bystander_pairs": int(by is not None), "twin_cases": int(twins),
-                "app_pauses": drv.pauses_done, "unencodable_names_tried": bad_name["tried"], "false_factories": drv.falsy_factories, "calls_from_inside_protocol_callbacks": drv.reactions_done, "app_resumes_while_offline": drv.resumes_offline}
+                "app_pauses": drv.pauses_done, "writes_in_offline_bursts": kills.get("burst_writes", 0), "unencodable_names_tried": bad_name["tried"], "false_factories": drv.falsy_factories, "calls_from_inside_protocol_callbacks": drv.reactions_done, "app_resumes_while_offline": drv.resumes_offline}
 
     def wit(extra=None):
         w = {"spec": spec, "roles": {n: str(dp.role(n)) for n in "AB"}, "states": {n: dp.mstate(n) for n in "AB"},
